@@ -234,7 +234,7 @@ def inline_new_temps(func, ref_locals, local_names, score=None, max_candidates=6
                     if not blk:
                         blk.append(fix(ast.Pass(), a))
                     break
-            if guided_ and score(func) <= before:
+            if guided_ and not score(func).better_than(before, removal=True):      # equal recovery with one statement less is kept
                 func.body = snapshot.body
                 changed = True          # the tree objects changed: recompute everything, the candidate is remembered as tried
                 break
@@ -3420,7 +3420,12 @@ def coalesce_copies(func, ref_locals, local_names):
                         continue
                     if any(isinstance(n, ast.Try) for n in ast.walk(func)) and any(isinstance(n, ast.Name) and n.id == x and getattr(n, 'lineno', 0) < blk[d].lineno for n in ast.walk(func)):
                         continue
-                if any(isinstance(n, ast.Name) and n.id == x for s2 in blk[d:j] for n in ast.walk(s2)):
+                # x may be read by the expression that defines t (it is evaluated before x is bound): t = f(x) ; x = t  ->  x = f(x)
+                if any(isinstance(n, ast.Name) and n.id == x for s2 in blk[d + 1:j] for n in ast.walk(s2)):
+                    continue
+                if len(stores) != 1 and any(isinstance(n, ast.Name) and n.id == x for n in ast.walk(blk[d])):
+                    continue
+                if any(isinstance(n, (ast.Lambda,) + FuncDef) for n in ast.walk(blk[d])) and any(isinstance(n, ast.Name) and n.id == x for n in ast.walk(blk[d])):
                     continue
                 if any(isinstance(n, ast.Name) and n.id == t for s2 in blk[j + 1:] for n in ast.walk(s2)):
                     continue
